@@ -921,3 +921,22 @@ BREAKING += [
     ('c5-partials-from-generator-order', ['C01'], [(A, _M_OLD, _M_GEN.replace('MULHSU, MULHU', 'MULHU, MULHSU'))]),
     ('c5-partials-from-generator-range', ['C01'], [(A, _M_OLD, _M_GEN.replace('range(0b1000)', 'range(1, 9)'))]),
 ]
+
+# ---- round 5: capped read of the firmware file; writability probes of the output paths before assembling ----
+_FW_READ = "        firmware = f.read()\n"
+_CLI_CONST = "    constants = {}\n    labels = {}\n    try:\n        input_asm = os.path.abspath(args.input_asm)\n"
+
+
+def _probe(mode):
+    return ("    for path in filter(None, [args.output, args.labels]):\n        try:\n            open(path, '" + mode + "').close()\n"
+            "        except OSError as e:\n            raise SystemExit('cannot write output file: {}'.format(path))\n\n" + _CLI_CONST)
+
+
+BREAKING += [
+    ('c5-dfu-capped-read', ['C19'], [(D, _FW_READ, "        firmware = f.read(page_size * page_count)\n")]),
+    ('c5-cli-probe-truncates', ['C17'], [(A, _CLI_CONST, _probe('wb'))]),
+]
+PRESERVING += [
+    ('p5-dfu-read-all', ['C18', 'C19'], [(D, _FW_READ, "        firmware = f.read(-1)\n")]),
+    ('p5-cli-probe-append', ['C15', 'C16', 'C17'], [(A, _CLI_CONST, _probe('ab'))]),
+]
